@@ -23,6 +23,14 @@ CLAIMS.update({
  "C14": dict(text="Decides traversal exhaustiveness: for every type-graph route from CodeData to a nested CodeData, __iter__ yields the object at its end under a CodeData guard; all_code_data yields self first and recurses over iter(self); nested code constants are decoded by CodeData.from_code.",
    technique="type-graph route enumeration vs. abstract interpretation of the generator", ref="5 C14"),
 })
+CLAIMS.update({
+ "C01": dict(text="Decides necessary structural clauses of losslessness per interpreter version: every code() slot's co_* attribute is read; role conservation (composing encoder provenance of each CodeType slot with decoder provenance of the fields it uses yields co_s and no foreign table); every data-class field is produced input-dependently and consumed by the encoder; every compiler-emittable flag has a representation (one known finding); inverse-pair constants. Byte equality for any particular program is not decided.",
+   technique="inter-procedural provenance (context-sensitive abstract interpretation), composed across decoder and encoder; CPython contract tables", ref="5 C01"),
+ "C02": dict(text="Decides the facts a mirrored decoder/encoder error would corrupt while the round trip stays green: category->table binding against each stdlib's opcode/dis tables, category exhaustiveness, jump scale and offset arithmetic by finite evaluation per version, cell/free split, line key = first code unit, accumulator reset. Correctness of each decoded value for a given program is not decided.",
+   technique="provenance by abstract interpretation + finite-domain evaluation of extracted expressions against CPython tables parsed from stdlib sources", ref="5 C02"),
+ "C11": dict(text="Decides per interpreter version: residual flag bits are tested on every returning path; a typestate walk for each of the 18 flag names ends consumed or rejected, never surviving or dropped untested; consumed flags are re-produced; every header field is read; line-mapping leftovers and unusable argument counts are rejected. Numeric values of the flag enumeration (taken from the running interpreter) are not decided.",
+   technique="path-sensitive typestate walk over the structured CFG, guided by points-to facts; stdlib flag tables parsed statically", ref="5 C11"),
+})
 NA = {}
 props = [json.loads(l) for l in open(os.path.join(HERE, "properties.jsonl"))]
 checks, na = [], []
